@@ -62,6 +62,7 @@ def typestate_fn(chk, fn, idx_name, rule, key):
 def run(chk, facts, tier):
     chk.rule('channel-index-validated', 'variable_advertising_channel_map: at every exit of next_channel/add_channel/remove_channel (non-empty map) the current channel index was validated '
              'against map_ (edge map_ & (1 << index) != 0, or = first_channel_index())', floor=3)
+    chk.rule('no-enabled-channel-skipped', 'variable_advertising_channel_map::next_channel changes the index only by ++ and by a wrap to first_channel_index() that is control dependent on (1 << index) > map_ (no enabled channel at or above the index)', floor=1)
     chk.rule('first-index-loop', 'first_channel_index() returns the loop variable whose loop exits exactly on (map_ & (1 << result)) != 0, starting from 0 and stepping by 1', floor=1)
     chk.rule('fixed-map-cycle', 'all_advertising_channel_map::next_channel maps last -> first and c -> c + 1 otherwise', floor=1)
     chk.rule('perturbation-range', 'adv_perturbation_ is stored only as (adv_perturbation_ + k) % (max_adv_perturbation_ + 1) with max 10 and 0 initially; next_adv_event returns now() unless the first '
@@ -76,6 +77,45 @@ def run(chk, facts, tier):
             if r is None:
                 # remove_channel with an empty map leaves the index untouched: outside the property's quantifier (non-empty maps)
                 chk.instance('channel-index-validated', fn, name + ' never stores the index', name.startswith('remove') or name.startswith('add'), 'index never updated', key=name)
+
+    # no enabled channel is skipped: the index moves forward one position at a time and wraps only when no higher channel is enabled
+    for fn in variants(facts, VMAP + 'next_channel', chk):
+        probs = []
+        unknown = []
+        n_wrap = 0
+        for tgt, op, val, st in stores(fn.body):
+            if target_name(tgt) != IDX:
+                continue
+            if op == '++':
+                continue
+            if op == '=' and val is not None and strip_casts(val).is_call('first_channel_index'):
+                n_wrap += 1
+                ats = guard_atoms(fn, st)
+                past = False
+                for l, o2, r in ats:
+                    for x, oo, y in ((l, o2, r), (r, SWAP[o2], l)):
+                        if isinstance(x, int) or isinstance(y, int):
+                            # (map_ >> idx) == 0
+                            b = as_binop(x) if not isinstance(x, int) else None
+                            if b and b[0] == '>>' and is_name(b[1], MAP) and is_name(b[2], IDX) and oo == '==' and cval(y) == 0:
+                                past = True
+                            continue
+                        bx = as_binop(x)
+                        if bx and bx[0] == '<<' and cval(bx[1]) == 1 and is_name(bx[2], IDX) and is_name(y, MAP) and oo == '>':
+                            past = True
+                if not past:
+                    rel = [a for a in ats if any(mentions(z, MAP) for z in (a[0], a[2]) if not isinstance(z, int))]
+                    if all((not isinstance(a[0], int) and is_map_bit_test(a[0], IDX)) or (not isinstance(a[2], int) and is_map_bit_test(a[2], IDX)) for a in rel):
+                        probs.append((st, 'the index wraps to the first enabled channel under (%s) only - not under "no enabled channel above it" ((1 << index) > map_): with the map {37, 39} channel 39 is never used' %
+                                      ' && '.join('%s %s %s' % (a[0].text() if not isinstance(a[0], int) else a[0], a[1], a[2].text() if not isinstance(a[2], int) else a[2]) for a in rel) or 'no condition on the map'))
+                    else:
+                        unknown.append(st)
+                continue
+            probs.append((st, 'the index is changed by something else than one step forward or the wrap to the first enabled channel (%s): a channel can be skipped' % st.text()[:50]))
+        if unknown:
+            chk.broke('next_channel: the wrap at line %d is guarded by a map test the rule does not recognise ((1 << index) > map_ or (map_ >> index) == 0 expected)' % unknown[0].l)
+            continue
+        chk.instance('no-enabled-channel-skipped', fn, 'next_channel: ++ steps, %d wrap(s) behind (1 << index) > map_' % n_wrap, not probs and n_wrap >= 1, probs[0][1] if probs else ('no wrap to the first channel' if n_wrap < 1 else ''), node=probs[0][0] if probs else None, key='next_channel')
 
     for fn in variants(facts, VMAP + 'first_channel_index', chk):
         rets = fn.returns()
